@@ -64,7 +64,7 @@ class MeshLine1(MeshSimplex, Mesh):
 
     def _adaptive(self, marked):
         p, t = self.doflocs, self.t
-        marked = np.unique(marked)
+        marked = np.unique(np.asarray(marked, dtype=np.int64))
 
         mid = np.arange(len(marked)) + p.shape[1]
         nonmarked = np.setdiff1d(np.arange(t.shape[1]), marked)
